@@ -129,7 +129,7 @@ MAIN_V = {
     'v1': 'from c04pool.m0x import make, wide\n\ndef run(n: str) -> str:\n\tx = make(n)\n\tw = wide(1, \'a\', 1.5, True, 2, \'b\', 2.5, False, 3, \'c\', 4)\n\treturn x.get()\n',
     'bad': 'def run(n: int) -> int:\n\treturn (n +\n',
     # loads, fails while it is transpiled (in the middle of a run of the long-lived transpiler and its procedures)
-    'ill': 'from c04pool.m1 import make1\n\ndef run(n: int) -> int:\n\tx = make1(n)\n\ty = [zz_undefined(v) for v in [x.get()]]\n\treturn y[0]\n',
+    'ill': 'from c04pool.m1 import make1\n\ndef first(values: list[int]) -> int:\n\treturn values[0]\n\ndef run(n: int) -> int:\n\tx = make1(n)\n\ty = [zz_undefined(v) for v in [x.get()]]\n\treturn y[0]\n',
 }
 # 'c04pool.m1' is a string prefix of 'c04pool.m1x' (its importer) and 'c04pool.m0' of 'c04pool.m0x' (unrelated to it):
 # unloading or exporting one must not touch the other
@@ -176,7 +176,7 @@ def write_pool():
 def new_session(cache=True):
     from mc.tranp.session import Session
     write_pool()
-    s = Session({'__main__': MAIN_V['v0']}, cache=cache)
+    s = Session({'__main__': MAIN_V['v0']}, cache=cache, template_override=True)
     s.warm()
     return s
 
@@ -187,11 +187,11 @@ def baselines():
     write_pool()
     out = {}
     for m in MODS:
-        s = Session({'__main__': MAIN_V['v0']}, cache=False)
+        s = Session({'__main__': MAIN_V['v0']}, cache=False, template_override=True)
         out[m] = s.transpile(m)
     out['foreign:cvars'] = Session({'__main__': MAIN_V['v0']}, cache=False, transpiler_env=FOREIGN_ENV).transpile('c04pool.m0')
     for v, src in MAIN_V.items():
-        s = Session({'__main__': src}, cache=False)
+        s = Session({'__main__': src}, cache=False, template_override=True)
         try:
             out[f'__main__:{v}'] = s.transpile('__main__')
         except Exception as e:  # noqa
